@@ -252,29 +252,20 @@ func jsonrtF11Repair(o, g protoreflect.Message) int {
 	return n
 }
 
-var jsonrtCoreCache = map[protoreflect.FullName]bool{}
-
-// jsonrtCore: every message type reachable from md is ordinary or one of the wrappers, Struct, ListValue,
-// Value, Empty, Timestamp, Duration, FieldMask -- the part of C20 that is proved (json_core2: everything but Any).
-func jsonrtCore(md protoreflect.MessageDescriptor) bool {
-	if v, ok := jsonrtCoreCache[md.FullName()]; ok {
-		return v
-	}
-	_, list := rtCollectTypes(md, nil)
-	ok := true
-	for _, d := range list {
-		if c := rtWktCode(d); c == 1 {
-			ok = false
-		}
-	}
-	jsonrtCoreCache[md.FullName()] = ok
-	return ok
-}
-
-// jsonrtF11Unset: some message reachable from m has an unset F11-shaped field.
+// jsonrtF11Unset: some message reachable from m (also through the content of Any values) has an unset
+// F11-shaped field.
 func jsonrtF11Unset(m protoreflect.Message) bool {
 	found := false
 	rtWalk(m, func(x protoreflect.Message) bool {
+		if rtWkt(x.Descriptor()) == "Any" {
+			if em, _ := rtResolveAny(x); em != nil && x.Has(rtField(x, 1)) && jsonrtF11Unset(em) {
+				found = true
+			}
+			return false
+		}
+		if w := rtWkt(x.Descriptor()); w != "" && w != "Empty" {
+			return !found // special mappings never go through the unpopulated-field ranger; their parts may
+		}
 		fds := x.Descriptor().Fields()
 		for i := 0; i < fds.Len(); i++ {
 			if fd := fds.Get(i); jsonrtF11Shaped(fd) && !x.Has(fd) {
@@ -348,9 +339,9 @@ func jsonrtOne(c *Ctx, t *rtTarget, m protoreflect.Message, cfg jsonrtCfg) {
 		rtAnyTypes(m, map[protoreflect.FullName]bool{}, &extra)
 		id = rtSchemaOf(c, "jsonrt", t.md, extra)
 		val = msgDump(m)
-		// the validity predicate of the proved theorem (core: tables without special-mapping types) and
-		// its F11 exclusion against the harness's independent classification, for EmitUnpopulated off / on
-		if len(extra) == 0 && jsonrtCore(t.md) {
+		// the representability predicate of the proved theorem (json_valid2) and its F11 exclusion against
+		// the harness's independent classification, for EmitUnpopulated off / on
+		{
 			cls := "v"
 			if reason != "" || lossy != "" {
 				cls = "nv"
